@@ -35,7 +35,7 @@ def cases(rng, tier):
         for f in ("sum", "np.sum", "mean", "counts", "column"):
             if tier == "quick" and rng.random() < 0.4:
                 continue
-            p = {"lens": lens, "f": f, "dtype": rng.choice(gens.DTYPES), "vseed": rng.randint(0, 9999), "mode": rng.choice(["small", "small", "big"])}
+            p = {"lens": lens, "f": f, "dtype": rng.choice(gens.DTYPES), "vseed": rng.randint(0, 9999), "mode": rng.choice(["small", "small", "big", "rare"])}
             if f == "column":
                 p["j"] = rng.randint(0, max(lens))
             out.append(p)
@@ -63,6 +63,9 @@ def _vals(p):
     dt = np.dtype(p["dtype"])
     if p["mode"] == "big" and dt.name in ("int64", "uint64"):
         return np.array([2 ** 53 + rnd.randint(1, 9) for _ in range(n)], dtype=dt)
+    if p["mode"] == "rare" and dt.kind == "f":
+        # NaN / infinities / signed zeros among ordinary values (column sums and means must propagate them as numpy does)
+        return np.array([rnd.choice([float("nan"), float("inf"), float("-inf"), -0.0, 1.5, 2.5, 4.0, 7.0]) for _ in range(n)], dtype=dt)
     return gens.cell_values(p["dtype"], n, rnd, mode="small")
 
 
